@@ -1,8 +1,12 @@
 """C06 - all four simulator implementations execute every program identically (lock-step replicas)."""
 import hashlib
+import json
+import os
+import shutil
+import signal
 
-from . import gen_lock, lockstep
-from .harness import new_result, fail, bump
+from . import build, gen_lock, gen_prog, lockstep, p10, prng
+from .harness import new_result, fail, bump, RunTimeout
 
 PROP = 'C06'
 RUNS = {'quick': 30000, 'thorough': 1500000}
@@ -12,13 +16,164 @@ PROPS = {'C06'}
 
 def init():
     lockstep.init()
+    p10.init()
 
 def gen(rng, tier, index):
     if index % 8 < 6:
         return gen_lock.gen_wstep(rng, tier, index // 8 * 6 + index % 8)
+    if index % 16 == 7:
+        return gen_tool(rng, tier, index)
+    if index % 16 == 15:
+        return gen_batch(rng, tier, index)
     return gen_lock.gen_wprog(rng, tier, index)
 
+def gen_tool(rng, tier, index):
+    """Tool level: trace.main with and without --python (Python loop in trace.Tracer.run vs C trace())."""
+    machine = rng.choice(('48K', '48K', '128K', '+2'))
+    interrupts = rng.random() < 0.85
+    prog = gen_prog.gen_program(rng, machine, interrupts=interrupts)
+    return {'kind': 'tool', 'machine': machine, 'prog': prog, 'start_fmt': rng.choice(('szx', 'z80')), 'cmio': rng.random() < 0.4,
+            'interrupts': interrupts, 'N': prng.log_uniform(rng, 1, 3000), 'limit': rng.choice(('-m', '-m', '-M')),
+            'verbose': rng.choice((0, 0, 1, 2)), 'decimal': rng.random() < 0.3, 'stats': rng.random() < 0.2, 'map': rng.random() < 0.2}
+
+def gen_batch(rng, tier, index):
+    """simulator.run(start, stop, interrupts) on every replica from the same state (the four separately
+    written interrupt schedulers); a straight-line program so that the stop address is reached."""
+    machine = rng.choice(('48K', '48K', '128K'))
+    frame = 69888 if machine == '48K' else 70908
+    org = rng.choice((0x8000, 0x9000, 0xC000, 0x6000, rng.randrange(0x5B00, 0xF000)))
+    e = gen_prog.Emitter(rng, org)
+    use_int = rng.random() < 0.85
+    iff = rng.choice((0, 1, 1))
+    iff0 = iff
+    for _ in range(rng.randrange(1, 40)):
+        k = rng.random()
+        if k < 0.6:
+            e.safe(1)
+        elif k < 0.7:
+            e.emit(0xFB)
+            iff = 1
+        elif k < 0.75:
+            e.emit(0xF3)
+            iff = 0
+        elif k < 0.8:
+            if iff and use_int:
+                e.emit(0x76)            # HALT: leaves when the next interrupt arrives (the ISR ends with EI)
+        elif k < 0.85:
+            e.emit(0x06, rng.choice((1, 2, 5, 40)), 0x10, 0xFE)      # LD B,n; DJNZ $
+        elif k < 0.9:
+            e.emit(0x01); e.word(rng.choice((1, 2, 9, 300))); e.emit(0x21); e.word(rng.randrange(0x10000)); e.emit(0x11); e.word(rng.randrange(0x4000, 0x10000)); e.emit(0xED, rng.choice((0xB0, 0xB8)))
+        elif k < 0.95:
+            e.emit(0xED, rng.choice((0x57, 0x5F)))
+        else:
+            for _ in range(rng.randrange(1, 4)):
+                e.emit(rng.choice((0xDD, 0xFD)))
+            e.safe(1)
+    stop = e.pc
+    isr = rng.choice((0xF000, 0x7000, 0xB000))
+    mem = gen_prog.gen_mem(rng, machine)
+    mem['patches'] += [[org, bytes(e.code).hex()], [isr, 'f5f1fbc9'], [0xFEFF, bytes((isr & 0xFF, isr >> 8)).hex()]]
+    regs = gen_lock.gen_regs30(rng, machine, org)
+    regs[12] = rng.choice((0x5C00, 0x7F00, 0xBF00, 0xFF00))
+    regs[14] = 0xFE
+    regs[27] = 2
+    regs[26] = iff0
+    regs[25] = rng.choice((frame - rng.randrange(1, 400), rng.randrange(0, 40), rng.randrange(frame), rng.randrange(frame) + frame * rng.randrange(1, 300)))
+    return {'kind': 'batch', 'machine': machine, 'mem': mem, 'regs': regs, 'tracer': {'present': True, 'in_r_c': True, 'ini': True}, 'reads': gen_lock.gen_reads(rng),
+            'stop': stop, 'interrupts': use_int, 'replicas': ['py', 'pyfast', 'c', 'pycmio', 'ccmio']}
+
+def _alarm(signum, frame):
+    raise RunTimeout()
+
+def run_batch(scn, res):
+    st = lockstep.materialise_state(scn)
+    machine = st['machine']
+    finals = {}
+    for kind in scn['replicas']:
+        rp = lockstep.get_replica(kind, machine)
+        rp.reset(st)
+        if not rp.isc:
+            # Python engines are interruptible; a run that does not terminate is discarded before the C engines try it
+            old = signal.signal(signal.SIGALRM, _alarm)
+            signal.alarm(3)
+            try:
+                rp.sim.run(st['regs'][24], scn['stop'], scn['interrupts'])
+            except RunTimeout:
+                res['discard'] = 'batch program does not reach its stop address'
+                return res
+            finally:
+                signal.alarm(0)
+                signal.signal(signal.SIGALRM, old)
+        else:
+            rp.sim.run(st['regs'][24], scn['stop'], scn['interrupts'])
+        finals[kind] = (rp.regs(), rp.phys()[1], list(rp.world.log))
+    bump(res, 'batch_runs')
+    for a, b, skip in (('py', 'pyfast', (29,)), ('py', 'c', (29,)), ('pycmio', 'ccmio', ())):
+        if a in finals and b in finals:
+            d = lockstep._first_diff(finals[a][0], finals[b][0], skip)
+            if d >= 0:
+                return fail(res, 'C06/batch/%s-vs-%s/reg.%s' % (a, b, lockstep.REGNAMES[d]), 'run(start=%d, stop=%d, interrupts=%s): %s=%d (%s) vs %d (%s)\n %s: %s\n %s: %s' % (
+                    st['regs'][24], scn['stop'], scn['interrupts'], lockstep.REGNAMES[d], finals[a][0][d], a, finals[b][0][d], b, a, lockstep._fmt_regs(finals[a][0]), b, lockstep._fmt_regs(finals[b][0])))
+            if finals[a][1] != finals[b][1]:
+                return fail(res, 'C06/batch/%s-vs-%s/memory' % (a, b), 'RAM differs after run(): %s' % lockstep._memdiff(finals[a][1], finals[b][1]))
+            if finals[a][2] != finals[b][2]:
+                return fail(res, 'C06/batch/%s-vs-%s/ports' % (a, b), 'port logs differ after run()')
+    res['sigs'] = ['batch|%s|%s' % (machine, scn['interrupts'])]
+    res['digest'] = hashlib.sha256(repr(finals.get('py', finals.get('pycmio'))[0]).encode()).hexdigest()
+    return res
+
+def run_tool(scn, res):
+    wd = build.workdir()
+    try:
+        machine = scn['machine']
+        frame = 69888 if machine == '48K' else 70908
+        start, extra = p10.write_start(scn, wd)
+        args = [scn['limit'], str(scn['N'] if scn['limit'] == '-m' else scn['N'] * 7)]
+        if scn['verbose']:
+            args.append('-' + 'v' * scn['verbose'])
+        if scn['decimal']:
+            args.append('-D')
+        if scn['stats']:
+            args.append('--stats')
+        if scn['cmio']:
+            args.append('--cmio')
+        if not scn['interrupts']:
+            args.append('-n')
+        outs = {}
+        for python in (False, True):
+            a = list(args)
+            if python:
+                a.append('--python')
+            mapf = os.path.join(wd, 'map-%d.txt' % python)
+            if scn['map']:
+                a += ['--map', mapf]
+            try:
+                out, caps = p10.run_trace(a + extra + [start, os.path.join(wd, 'end-%d.szx' % python)])
+            except p10.ToolError as e:
+                return fail(res, 'C06/tool/error', str(e))
+            m = open(mapf).read() if scn['map'] else ''
+            outs[python] = (out.replace('end-1.szx', 'end-0.szx').replace('map-1.txt', 'map-0.txt'), p10.extract(caps[-1], 1 << 62), m)
+        bump(res, 'tool_pairs')
+        if outs[False][0] != outs[True][0]:
+            la, lb = outs[False][0].splitlines(), outs[True][0].splitlines()
+            k = next((i for i in range(min(len(la), len(lb))) if la[i] != lb[i]), min(len(la), len(lb)))
+            return fail(res, 'C06/tool/stdout', 'trace.py %s: output differs with --python at line %d\n  C     : %s\n  Python: %s' % (args, k, la[k] if k < len(la) else '<end>', lb[k] if k < len(lb) else '<end>'))
+        d = p10.diff_states(outs[False][1], outs[True][1])
+        if d:
+            return fail(res, 'C06/tool/%s' % d[0][0], 'trace.py %s: final state differs with --python\n%s' % (args, '\n'.join('  %s: C=%s Python=%s' % x for x in d[:10])))
+        if outs[False][2] != outs[True][2]:
+            return fail(res, 'C06/tool/map', 'trace.py %s: --map output differs with --python' % args)
+        res['sigs'] = ['tool|%s|%s|v%d|%s' % (machine, scn['cmio'], scn['verbose'], scn['limit'])]
+        res['digest'] = hashlib.sha256(outs[False][0].encode()).hexdigest()
+        return res
+    finally:
+        shutil.rmtree(wd, ignore_errors=True)
+
 def run(scn):
+    if scn['kind'] == 'batch':
+        return run_batch(scn, new_result())
+    if scn['kind'] == 'tool':
+        return run_tool(scn, new_result())
     res = new_result()
     sigs = set()
     try:
@@ -30,10 +185,28 @@ def run(scn):
     return res
 
 def sample(scn, res):
+    if scn['kind'] == 'tool':
+        return {k: v for k, v in scn.items() if k != 'prog'}
+    if scn['kind'] == 'batch':
+        return {'kind': 'batch', 'machine': scn['machine'], 'stop': scn['stop'], 'regs': scn['regs'], 'patches': scn['mem']['patches']}
     return {'kind': scn['kind'], 'machine': scn['machine'], 'slot': scn.get('slot'), 'steps': scn['steps'], 'ints': scn['ints'],
             'regs': scn['regs'], 'tracer': scn['tracer'], 'patches': scn['mem']['patches'][-1:]}
 
-shrink_candidates = gen_lock.shrink_candidates
+def shrink_candidates(scn):
+    if scn['kind'] == 'tool':
+        def cp():
+            return json.loads(json.dumps(scn))
+        for n in (1, 2, scn['N'] // 2, scn['N'] - 1):
+            if 0 < n < scn['N']:
+                c = cp(); c['N'] = n; yield c
+        for k in ('verbose', 'decimal', 'stats', 'map', 'cmio'):
+            if scn[k]:
+                c = cp(); c[k] = 0 if k == 'verbose' else False; yield c
+        return
+    if scn['kind'] == 'batch':
+        return
+    for c in gen_lock.shrink_candidates(scn):
+        yield c
 
 def describe():
     return {
